@@ -291,6 +291,27 @@ Proof.
     rewrite EP. destruct (if pre =? 0 then Ok s0 else _) as [sa| |]; cbn [bind omap]; try reflexivity.
     rewrite SC by auto. destruct (run_script z s sa); cbn [bind omap]; try reflexivity. apply complete_loan_commute.
   - destruct (n =? 0); reflexivity.
+  - apply orb_false_iff in Hu as [Hk Hs].
+    destruct (ensure (is_user st u) E_OTHER); cbn [bind omap]; try reflexivity.
+    assert (HRL : forall st0, router_loan u z pre s (sv k b st0) = omap (sv k b) (router_loan u z pre s st0)).
+    { intros st0. unfold router_loan. assert (E : ab (sv k b st0) = ab st0) by (destruct k; reflexivity). rewrite E.
+      destruct (ensure (has (ab st0) u) E_OTHER); cbn [bind omap]; try reflexivity.
+      apply flash_loan_commute; [intros ->; discriminate Hk|].
+      intros s0. unfold router_body.
+      assert (EP : (if pre =? 0 then Ok (sv k b s0) else do ab' <- xfer (kind (sv k b s0)) (ab (sv k b s0)) ROUTER ADV pre; Ok (set_ab (sv k b s0) ab'))
+                   = omap (sv k b) (if pre =? 0 then Ok s0 else do ab' <- xfer (kind s0) (ab s0) ROUTER ADV pre; Ok (set_ab s0 ab'))).
+      { destruct (pre =? 0); [reflexivity|]. apply pay_commute. }
+      rewrite EP. destruct (if pre =? 0 then Ok s0 else _) as [sa| |]; cbn [bind omap]; try reflexivity.
+      rewrite SC by auto. destruct (run_script z s sa); cbn [bind omap]; try reflexivity. apply complete_loan_commute. }
+    unfold router_loan_f. destruct (f =? 0); [apply HRL|].
+    pose proof (pay_commute k b u ROUTER f st) as HP.
+    destruct (xfer (kind st) (ab st) u ROUTER f) as [ab1| |] eqn:EX; cbn [bind omap] in HP |- *.
+    + destruct (xfer (kind (sv k b st)) (ab (sv k b st)) u ROUTER f) as [ab2| |] eqn:EX2; cbn [bind omap] in HP |- *; try discriminate HP.
+      injection HP as HE. rewrite HE. replace (set_ab (sv k b st) ab1) with (sv k b (set_ab st ab1)) by (destruct k; reflexivity). apply HRL.
+    + destruct (xfer (kind (sv k b st)) (ab (sv k b st)) u ROUTER f) as [ab2| |] eqn:EX2; cbn [bind omap] in HP |- *; try discriminate HP.
+      inversion HP. reflexivity.
+    + destruct (xfer (kind (sv k b st)) (ab (sv k b st)) u ROUTER f) as [ab2| |] eqn:EX2; cbn [bind omap] in HP |- *; try discriminate HP.
+      reflexivity.
 Qed.
 
 (* the owner's UpdateConfig moves exactly the named switches and nothing else *)
